@@ -15,6 +15,7 @@
 -/
 import SA.Proofs.Policy
 import SA.Gen.Locks
+import SA.Gen.C17
 import SA.Gen.PkgVars
 namespace SA.Policy
 
@@ -671,6 +672,12 @@ example : let ds : List UpDesc := [⟨"starttls", false, .both, true⟩, ⟨"tcp
     let c := descCfg ds (some 0)
     (connect Facts.current c (envRestart (connect Facts.current c Sh.init true).1) true).2.1 = .up 1 := by decide
 
+/-- both ends run the multiplexer with the library's default keep-alive (the only configuration field the code assigns
+    is the frame size; regenerated): the two ends therefore agree on how often a keep-alive frame is due and how long
+    silence is tolerated, and an idle session on a healthy carrier is not taken for a lost one. -/
+theorem C16_mux_timing_is_default_on_both_ends :
+    Gen.smuxConfigAssignedServer = ["MaxFrameSize"] ∧ Gen.smuxConfigAssignedClient = ["MaxFrameSize"] := by decide
+
 /-- **locks_not_reentrant**: the policy model's steps (Connect's critical section, discard, Shutdown) are atomic; in
     the code no function holding Upstreams.mutex reaches code that locks it again (regenerated). -/
 theorem C16_locks_not_reentrant : Gen.reentrantLockPaths = [] := by decide
@@ -713,3 +720,4 @@ theorem C16_no_hidden_process_state :
 end SA.PkgState
 
 #print axioms SA.PkgState.C16_no_hidden_process_state
+#print axioms SA.Policy.C16_mux_timing_is_default_on_both_ends
